@@ -350,7 +350,8 @@ class SchemaGen(object):
     def deprecation(self, p=0.15):
         if not self.chance(p):
             return None
-        return self.rng.choice(["No longer supported", "use something else", 'with "quotes"'])
+        return self.rng.choice(["No longer supported", "use something else", 'with "quotes"', "", "see \U0001f600 \U0001d538",
+                                "back\\slash", "two\nlines", "use something else"])
 
     def gen_field(self, owner, output_names):
         """New pooled field (name unique globally => same signature everywhere)."""
@@ -465,11 +466,19 @@ class SchemaGen(object):
         for f in rng.sample(sorted(self.field_pool), min(2, len(self.field_pool))):
             if not q.field(f):
                 q.fields.append(self.field_pool[f])
+        # an ordinary object type may be *called* Mutation or Subscription without being that root
+        plain_named_like_root = None
+        if rng.random() < 0.08 and objs:
+            plain_named_like_root = rng.choice(["Mutation", "Subscription"])
+            o = rng.choice(objs)
+            old = o.name
+            self.rename_type(old, plain_named_like_root)
+            composite = [plain_named_like_root if n == old else n for n in composite]
         # one object type may serve several operations (schema { query: Root, mutation: Root })
         shared = self.features.get("shared_roots")
         if shared is None:
             shared = rng.random() < 0.1
-        if rng.random() < 0.6 or self.features.get("mutation"):
+        if (rng.random() < 0.6 or self.features.get("mutation")) and plain_named_like_root != "Mutation":
             if shared:
                 s.mutation = q.name
             else:
@@ -481,10 +490,44 @@ class SchemaGen(object):
             if shared and rng.random() < 0.5:
                 s.subscription = q.name
             else:
-                sub = s.add(SType("object", "Subscription" if rng.random() < 0.7 else "RootS", self.desc()))
+                sub_name = "Subscription" if rng.random() < 0.7 and plain_named_like_root != "Subscription" else "RootS"
+                sub = s.add(SType("object", sub_name, self.desc()))
                 s.subscription = sub.name
                 for _ in range(rng.randint(1, 3)):
                     sub.fields.append(self.gen_field(sub, leafs + composite))
+
+    def rename_type(self, old, new):
+        """Rename a type everywhere it is referenced (types dict order kept)."""
+        s = self.s
+
+        def rt(t):
+            if t[0] == "named":
+                return named(new) if t[1] == old else t
+            return (t[0], rt(t[1]))
+
+        items = list(s.types.items())
+        s.types.clear()
+        for k, t in items:
+            if k == old:
+                t.name = new
+                k = new
+            s.types[k] = t
+        seen = set()
+        for t in s.types.values():
+            t.interfaces = [new if i == old else i for i in t.interfaces]
+            t.members = [new if m == old else m for m in t.members]
+            for f in t.fields:
+                if id(f) in seen:
+                    continue
+                seen.add(id(f))
+                f.type = rt(f.type)
+                for a in f.args:
+                    a.type = rt(a.type)
+            for f in t.input_fields:
+                f.type = rt(f.type)
+        for f in self.field_pool.values():
+            if id(f) not in seen:
+                f.type = rt(f.type)
 
     def gen_directives(self):
         rng = self.rng
@@ -494,6 +537,11 @@ class SchemaGen(object):
             if "FIELD" not in locs and rng.random() < 0.7:
                 locs.append("FIELD")
             name = self.fresh("dir")
+            if rng.random() < 0.15:
+                # types and directives live in separate namespaces
+                name = rng.choice(sorted(self.s.types))
+                if name in self.s.directives:
+                    continue
             args = [self.make_input_value("%s_a%d" % (name, j), self.input_type_expr())
                     for j in range(rng.randint(0, 2))]
             self.s.directives[name] = SDirective(name, locs, args, self.desc(0.3))
@@ -827,8 +875,12 @@ def schema_def_sdl(s, ops=None, extend=False):
 
 
 def needs_schema_def(s):
-    return (s.query != "Query" or (s.mutation and s.mutation != "Mutation")
-            or (s.subscription and s.subscription != "Subscription"))
+    if (s.query != "Query" or (s.mutation and s.mutation != "Mutation")
+            or (s.subscription and s.subscription != "Subscription")):
+        return True
+    # a type that merely carries a default root name would be taken for that root
+    return ("Mutation" in s.types and s.mutation != "Mutation") or \
+        ("Subscription" in s.types and s.subscription != "Subscription")
 
 
 def to_sdl(s, rng=None, split_extensions=False, shuffle=False, force_schema_def=False, split_kinds=None):
